@@ -2,6 +2,7 @@ package rules
 
 import (
 	"go/token"
+	"go/types"
 	"strings"
 
 	"fv/internal/core"
@@ -129,3 +130,77 @@ func c15OpenIsOneCriticalSection(ctx *core.Ctx, r *RT) {
 }
 
 var _ = core.Ctx{}
+
+// c12RejectionLeavesStateAlone — C12.R16. "After an oversize failure the same
+// client keeps working": refusing a message that is too large is a verdict on
+// the message, not on the transport. In every function that builds the
+// REQUEST_TOO_LARGE exception, no deferred closure that was registered before
+// the refusal writes a field of the receiver — `defer func(){ if err != nil
+// { m.isOpen = false } }()` above the size guard closes the transport on a
+// correct refusal, and every later in-limit publish fails with NOT_OPEN.
+func c12RejectionLeavesStateAlone(ctx *core.Ctx, r *RT) {
+	ctx.Rule("C12.R16", "a REQUEST_TOO_LARGE refusal changes no transport state: no deferred closure registered before the refusal stores into the receiver", 3)
+	tooLarge := constInt(r, "TRANSPORT_EXCEPTION_REQUEST_TOO_LARGE")
+	n := 0
+	for _, fn := range r.Fns {
+		if fn.Signature.Recv() == nil || len(fn.Params) == 0 {
+			continue
+		}
+		var refusals []ssa.Instruction
+		for _, c := range ssax.Calls(fn) {
+			if c.ShortName() == "NewTTransportException" && len(c.Args()) > 0 {
+				if k, isK := ssax.ConstInt(c.Args()[0]); isK && k == tooLarge {
+					refusals = append(refusals, c.Instr.(ssa.Instruction))
+				}
+			}
+		}
+		if len(refusals) == 0 {
+			continue
+		}
+		n++
+		bad := ""
+		ssax.Instrs(fn, func(in ssa.Instruction) {
+			d, ok := in.(*ssa.Defer)
+			if !ok {
+				return
+			}
+			for _, cl := range funcValues(d.Call.Value) {
+				writes := false
+				ssax.Instrs(cl, func(x ssa.Instruction) {
+					st, ok := x.(*ssa.Store)
+					if !ok {
+						return
+					}
+					if fa, ok := st.Addr.(*ssa.FieldAddr); ok {
+						// the receiver, captured by the closure
+						base := ssax.Strip(fa.X)
+						if base == ssa.Value(fn.Params[0]) {
+							writes = true // the captured receiver, resolved to the parameter itself
+						}
+						if fv, isFV := base.(*ssa.FreeVar); isFV && types.Identical(fv.Type(), fn.Params[0].Type()) {
+							writes = true
+						}
+						if ld, isLd := base.(*ssa.UnOp); isLd {
+							if _, isFV := ld.X.(*ssa.FreeVar); isFV && types.Identical(ld.Type(), fn.Params[0].Type()) {
+								writes = true
+							}
+						}
+					}
+				})
+				if !writes {
+					continue
+				}
+				for _, rf := range refusals {
+					if ssax.Dominates(in, rf) {
+						bad = r.IPos(in)
+					}
+				}
+			}
+		})
+		ctx.Check(bad == "", "C12.R16", ssax.Name(fn)+" › the size refusal leaves the transport as it was", fnPos(r, fn), "no state-writing defer is armed before the refusal",
+			"a deferred closure armed at "+bad+" writes transport state on every error return, the correct REQUEST_TOO_LARGE refusal included: after one oversize message the transport reports closed and every later message within the limit is refused (NOT_OPEN)")
+	}
+	if n == 0 {
+		ctx.Unresolved("C12.R16", "size refusals", "no method builds a REQUEST_TOO_LARGE exception")
+	}
+}
